@@ -14,9 +14,14 @@ spanning tree listed parents first — proved for `treeEdges` of every growth se
 `C17_tree_edges` — and a residue is built iff it has no supplied position, which is what
 `add_positions_from_file` establishes, see C04_consume).  Helper lemmas: Proofs/Walk.lean.
 The model (`Model/Walk.lean`) is tied to /repo by the scripted-schedule correspondence of harness/c17.py.
+`BuildSystem.maxiter` (the give-up branch of `_handle_random_walk`) is modelled separately (`Walk.stepG`, with
+the local `step_count` and the log of return values) and proved to project onto the same machine for every
+`maxiter` (`C17_giveup_is_retry`, `C17_giveup_never_skips`, `C17_giveup_complete`; lemmas in
+Proofs/WalkGiveup.lean; stream `handle-returns`).
 -/
 import PolyplyVerif.Model.Walk
 import PolyplyVerif.Proofs.Walk
+import PolyplyVerif.Proofs.WalkGiveup
 
 namespace PolyplyVerif.C17
 open PolyplyVerif PolyplyVerif.Walk
@@ -90,6 +95,53 @@ theorem C17_complete (cfg : Cfg) (mols : List Mol) (wfs : AllWF mols) (sched : L
     ((run cfg mols sched (init mols)).eng j n).isSome = true :=
   Proofs.Walk.complete cfg mols wfs sched hdone j m hm hig n hn
 
+/-! ### `BuildSystem.maxiter`: what happens after `maxiter` failed attempts -/
+
+/-- **A give-up is a retry.**  `Walk.stepG` spells out the two branches of
+`if step_count == self.maxiter` in `_handle_random_walk` (give up: remove the built residues through
+`processor.nonbond_matrix`, return `False`, `_compose_system` does not advance and calls again with
+`step_count = 0`; otherwise: `step_count += 1`, remove through `self.nonbond_matrix`, next round).  For
+EVERY value of `BuildSystem.maxiter`, every schedule and every system the engine, the work list, the walk
+state and the position counter are those of the machine `Walk.run` — so `C17_rollback`,
+`C17_parent_first`, `C17_others_fixed` and `C17_complete` hold verbatim with the give-up branch: an
+abandoned call leaves exactly the supplied positions of the molecule, and the molecule is attempted again,
+never skipped and never left half placed. -/
+theorem C17_giveup_is_retry (cfg : Cfg) (bsMaxiter : Nat) (mols : List Mol) (sched : List Bool) :
+    (runG cfg bsMaxiter mols sched (initG mols)).sys = run cfg mols sched (init mols) :=
+  Proofs.WalkGiveup.runG_sys cfg bsMaxiter mols sched (initG mols)
+
+/-- **No molecule is dropped by a give-up.**  At every reachable state, the molecules for which
+`_handle_random_walk` has returned `True` (in order) followed by the molecules still to be built are the
+work list of `_compose_system`: `True` is returned exactly once per finished molecule and a `False`
+removes nothing from the list; the local `step_count` never exceeds `maxiter`, so the equality test of the
+give-up branch cannot be jumped over. -/
+theorem C17_giveup_never_skips (cfg : Cfg) (bsMaxiter : Nat) (mols : List Mol) (sched : List Bool) :
+    let g := runG cfg bsMaxiter mols sched (initG mols)
+    g.completed ++ g.sys.todo = work mols ∧ g.stepCount ≤ bsMaxiter :=
+  let h := Proofs.WalkGiveup.ginv_run (cfg := cfg) sched (initG mols) (Proofs.WalkGiveup.ginv_init bsMaxiter mols)
+  ⟨h.split, h.bound⟩
+
+/-- **… so a finished build has placed every molecule, whatever `maxiter` is**: if `_compose_system`
+leaves its loop, `True` was returned for every molecule of the work list and every residue of every
+molecule that is not ignored has a position. -/
+theorem C17_giveup_complete (cfg : Cfg) (bsMaxiter : Nat) (mols : List Mol) (wfs : AllWF mols) (sched : List Bool)
+    (hdone : (runG cfg bsMaxiter mols sched (initG mols)).sys.phase = .done) :
+    (runG cfg bsMaxiter mols sched (initG mols)).completed = work mols ∧
+    ∀ (j : Nat) (m : Mol), mols[j]? = some m → m.ignored = false → ∀ n ∈ m.nodes,
+      ((runG cfg bsMaxiter mols sched (initG mols)).sys.eng j n).isSome = true := by
+  have hs := C17_giveup_is_retry cfg bsMaxiter mols sched
+  have hinv := C17_giveup_never_skips cfg bsMaxiter mols sched
+  rw [hs] at hdone
+  have hr := C17_rollback cfg mols wfs sched
+  simp only [hdone] at hr
+  constructor
+  · have h1 := hinv.1
+    rw [hs, hr, List.append_nil] at h1
+    exact h1
+  · intro j m hm hig n hn
+    rw [hs]
+    exact C17_complete cfg mols wfs sched hdone j m hm hig n hn
+
 /-- **The search-tree edge list is a tree listed parents first**, for every growth sequence (what
 `bfs_edges`/`dfs_edges` yield): `list(T.edges)` of `T = DiGraph(); T.add_node(root);
 T.add_edges_from(es)` has distinct children, never the root as a child, and the parent of every edge is
@@ -144,5 +196,16 @@ example : TreeGrowth 3 [(3, 2), (2, 1), (3, 4), (4, 5)] ∧
   exact Proofs.Walk.treeGrowth_of_check 3 _ (by decide)
 /-- `C17_others_fixed`: molecule 0 is complete after three trials and `todo = [2]` -/
 example : 0 ∉ (run exCfg exMols [true, true, true] (init exMols)).todo := by decide
+/-- the give-up machine on the same system: `maxiter = 1`, two failed attempts of molecule 0 (give-up,
+`False`), success, then two failed attempts of molecule 2 … -/
+example : (runG exCfg 1 exMols [false, false, true, false, true, true, true, false, false, false] (initG exMols)).returns
+    = [(0, false), (0, true), (2, false)] ∧
+    (runG exCfg 1 exMols [false, false, true, false, true, true, true, false, false, false] (initG exMols)).stepCount = 1 := by
+  decide
+/-- … and `maxiter = 0` (every failed attempt is a give-up) on a run that ends: `C17_giveup_complete` applies -/
+example : (runG exCfg 0 exMols [false, true, true, true, false, true, true, true] (initG exMols)).sys.phase = .done ∧
+    (runG exCfg 0 exMols [false, true, true, true, false, true, true, true] (initG exMols)).returns
+      = [(0, false), (0, true), (2, false), (2, true)] := by
+  decide
 
 end PolyplyVerif.C17
